@@ -3,6 +3,8 @@ package participle
 import (
 	"fmt"
 	"strings"
+
+	"github.com/alecthomas/participle/v2/lexer"
 )
 
 // Perform some post-construction validation. This currently does:
@@ -122,8 +124,10 @@ func matchesEmpty(n node, visiting map[*strct]bool) bool {
 		}
 	case *lookaheadGroup:
 		return true
+	case *reference:
+		return n.typ == lexer.EOF // A reference to EOF matches at the end of the input without consuming.
 	}
-	// Literals, references and negations consume a token; custom productions are assumed to.
+	// Literals, other references and negations consume a token; custom productions are assumed to.
 	return false
 }
 
